@@ -384,6 +384,195 @@ class StoreLib(LibBase):
                               result_kind=EV, props=("C04", "C05"), allocates=True)
         C["reserve_put"] = mk_reserve("put")
         C["reserve_get"] = mk_reserve("get")
+
+        item_kind = ("tuple", [IT, ("num", "real")]) if p["tuple"] else IT
+
+        # ---- ownership test used by put/get:  token is a granted reservation made by the calling process
+        def owns(o, lst, e):
+            return z3.And(lib.is_in(o, lst, e), owner(o, e) == o.active)
+
+        avg_mods = () if p["noavg"] else ("_weighted_sum", "_last_level_change_time", "_last_num_items",
+                                           "time_averaged_num_of_items_in_store")
+
+        def avg_items(c, level_state):
+            """effect of one _update_time_averaged_level() call made when the store content is `level_state`"""
+            if p["noavg"]:
+                return []
+            o = c.old
+            return [
+                Def("_weighted_sum", Num(o.f["_weighted_sum"].t + z3.ToReal(o.f["_last_num_items"].t) *
+                                         (o.now - o.f["_last_level_change_time"].t)), ("C18",)),
+                Def("_last_level_change_time", Num(o.now), ("C18",)),
+                Def("_last_num_items", Num(level_state), ("C18",)),
+            ]
+
+        # ---- _do_put / _trigger_put / put
+        def put_core(c, with_trigger):
+            o, n = c.old, c.new
+            e = c.args["put_event"].t
+            x = c.args["item"]
+            pidx = lib.pos(o, RP, e)
+            items = [
+                Def(RP, V.list_pop(o.f[RP], pidx), ("C01", "C07")),
+                Def(ITEMS, V.list_append(o.f[ITEMS], x), ("C01", "C02")),
+                Clause("result-truthy", lambda c: V.truth(c.res), ("C01",)),
+            ]
+            return items
+
+        def put_excs():
+            return [ExcCase("RuntimeError", lambda c: z3.Not(owns(c.old, RP, c.args["put_event"].t)),
+                            "no-valid-reservation", unchanged=True, props=("C07",))]
+
+        def put_requires(c):
+            return owns(c.old, RP, c.args["put_event"].t)
+
+        if not p["ready"] and not p["filt"]:
+            C["_do_put"] = FnContract(
+                "_do_put", [("put_event", EV, None), ("item", item_kind, None)],
+                post=lambda c: put_core(c, False), excs=put_excs(), normal_requires=put_requires,
+                uses_inv=True, keeps_inv=False, modifies=(RP, ITEMS), result_kind=("bool",), props=("C01", "C07"))
+            C["_trigger_put"] = FnContract(
+                "_trigger_put", [("put_event", EV, None), ("item", item_kind, None)],
+                pre=lambda st, args: [("reservations-nonempty", st.f[RP].len > 0)],
+                post=lambda c: put_core(c, False), excs=put_excs(), normal_requires=put_requires,
+                uses_inv=True, keeps_inv=False, modifies=(RP, ITEMS), result_kind=("bool",), props=("C01", "C07"))
+
+            def post_put(c):
+                o, n = c.old, c.new
+                items = put_core(c, True)
+                kg = c.ghost("kg", lambda: n.f[RG].len - o.f[RG].len)
+                pref = V.list_slice_to(o.f[QG], kg)
+                items += [
+                    Clause("kg-range", lambda c: z3.And(0 <= kg, kg <= o.f[QG].len), ("C04",)),
+                    Def(QG, V.list_slice_from(o.f[QG], kg), ("C04", "C05")),
+                    Def(RG, V.list_concat(o.f[RG], pref), ("C04", "C05")),
+                    Def(RE, V.list_concat(o.f[RE], pref), ("C02",)),
+                ]
+                items += avg_items(c, held(o, p) + 1)
+                return items
+            C["put"] = FnContract(
+                "put", [("put_event", EV, None), ("item", item_kind, None)], post=post_put, excs=put_excs(),
+                normal_requires=put_requires, modifies=(RP, ITEMS, QG, RG, RE) + avg_mods,
+                heap_modifies=("triggered",), result_kind=("bool",), props=("C01", "C02", "C07"))
+
+            # ---- _do_get / _trigger_get / get
+            def get_core(c):
+                o = c.old
+                e = c.args["get_event"].t
+                q = lib.pos(o, RG, e)
+                return [
+                    DefRes(o.f[ITEMS].at(q), ("C02", "C06")),
+                    Def(ITEMS, V.list_pop(o.f[ITEMS], q), ("C02",)),
+                    Def(RG, V.list_pop(o.f[RG], q), ("C02", "C07")),
+                    Def(RE, V.list_pop(o.f[RE], q), ("C02",)),
+                ]
+
+            def get_excs():
+                return [ExcCase("RuntimeError", lambda c: z3.Not(owns(c.old, RG, c.args["get_event"].t)),
+                                "no-valid-reservation", unchanged=True, props=("C07",))]
+
+            def get_requires(c):
+                return owns(c.old, RG, c.args["get_event"].t)
+            C["_do_get"] = FnContract(
+                "_do_get", [("get_event", EV, None)], post=get_core, excs=get_excs(), normal_requires=get_requires,
+                uses_inv=True, keeps_inv=False, modifies=(ITEMS, RG, RE), result_kind=IT, props=("C02", "C07"))
+            C["_trigger_get"] = FnContract(
+                "_trigger_get", [("get_event", EV, None)],
+                pre=lambda st, args: [("reservations-nonempty", st.f[RG].len > 0)],
+                post=get_core, excs=get_excs(), normal_requires=get_requires,
+                uses_inv=True, keeps_inv=False, modifies=(ITEMS, RG, RE), result_kind=IT, props=("C02", "C07"))
+
+            def post_get(c):
+                o, n = c.old, c.new
+                items = get_core(c)
+                kp = c.ghost("kp", lambda: n.f[RP].len - o.f[RP].len)
+                pref = V.list_slice_to(o.f[QP], kp)
+                items += [
+                    Clause("kp-range", lambda c: z3.And(0 <= kp, kp <= o.f[QP].len), ("C04",)),
+                    Def(QP, V.list_slice_from(o.f[QP], kp), ("C04", "C05")),
+                    Def(RP, V.list_concat(o.f[RP], pref), ("C04", "C05")),
+                ]
+                items += avg_items(c, held(o, p) - 1)
+                return items
+            C["get"] = FnContract(
+                "get", [("get_event", EV, None)], post=post_get, excs=get_excs(), normal_requires=get_requires,
+                modifies=(ITEMS, RG, RE, QP, RP) + avg_mods, heap_modifies=("triggered",), result_kind=IT,
+                props=("C02", "C06", "C07"))
+
+        # ---- reserve_put_cancel
+        def post_rpc(c):
+            o, n = c.old, c.new
+            e = c.args["put_event_to_cancel"].t
+            inq = lib.is_in(o, QP, e)
+            q1 = V.ite(inq, V.list_pop(o.f[QP], lib.pos(o, QP, e)), o.f[QP])
+            r1 = V.ite(inq, o.f[RP], V.list_pop(o.f[RP], lib.pos(o, RP, e)))
+            k = c.ghost("k", lambda: n.f[RP].len - r1.len)
+            return [
+                Clause("k-range", lambda c: z3.And(0 <= k, k <= q1.len), ("C04",)),
+                Def(QP, V.list_slice_from(q1, k), ("C05", "C07")),
+                Def(RP, V.list_concat(r1, V.list_slice_to(q1, k)), ("C05", "C07")),
+                Clause("result-truthy", lambda c: V.truth(c.res), ("C07",)),
+            ]
+        C["reserve_put_cancel"] = FnContract(
+            "reserve_put_cancel", [("put_event_to_cancel", EV, None)], post=post_rpc,
+            excs=[ExcCase("RuntimeError", lambda c: z3.Not(z3.Or(lib.is_in(c.old, QP, c.args["put_event_to_cancel"].t),
+                                                               lib.is_in(c.old, RP, c.args["put_event_to_cancel"].t))),
+                          "unknown-token", unchanged=True, props=("C07",))],
+            normal_requires=lambda c: z3.Or(lib.is_in(c.old, QP, c.args["put_event_to_cancel"].t),
+                                            lib.is_in(c.old, RP, c.args["put_event_to_cancel"].t)),
+            modifies=(QP, RP), heap_modifies=("triggered",), result_kind=("bool",), props=("C04", "C05", "C07"))
+
+        # ---- reserve_get_cancel (positional binding)
+        if not p["ready"]:
+            def post_rgc(c):
+                o, n = c.old, c.new
+                e = c.args["get_event_to_cancel"].t
+                inq = lib.is_in(o, QG, e)
+                cidx = lib.pos(o, RG, e)
+                nres = o.f[RE].len
+                It = o.f[ITEMS]
+                # statement (C06): still-reserved items keep their order, then the released item, then the
+                # never-reserved items in their old order
+                released = It.at(cidx)
+                moved = V.list_concat(V.list_append(V.list_pop(V.list_slice_to(It, nres), cidx), released),
+                                      V.list_slice_from(It, nres))
+                q1 = V.ite(inq, V.list_pop(o.f[QG], lib.pos(o, QG, e)), o.f[QG])
+                g1 = V.ite(inq, o.f[RG], V.list_pop(o.f[RG], cidx))
+                e1 = V.ite(inq, o.f[RE], V.list_pop(o.f[RE], cidx))
+                k = c.ghost("k", lambda: n.f[RG].len - g1.len)
+                pref = V.list_slice_to(q1, k)
+                return [
+                    Clause("k-range", lambda c: z3.And(0 <= k, k <= q1.len), ("C04",)),
+                    Def(ITEMS, V.ite(inq, It, moved), ("C02", "C06")),
+                    Def(QG, V.list_slice_from(q1, k), ("C05", "C07")),
+                    Def(RG, V.list_concat(g1, pref), ("C05", "C07")),
+                    Def(RE, V.list_concat(e1, pref), ("C02",)),
+                    Clause("result-truthy", lambda c: V.truth(c.res), ("C07",)),
+                ]
+            C["reserve_get_cancel"] = FnContract(
+                "reserve_get_cancel", [("get_event_to_cancel", EV, None)], post=post_rgc,
+                excs=[ExcCase("RuntimeError",
+                              lambda c: z3.Not(z3.Or(lib.is_in(c.old, QG, c.args["get_event_to_cancel"].t),
+                                                     lib.is_in(c.old, RG, c.args["get_event_to_cancel"].t))),
+                              "unknown-token", unchanged=True, props=("C07",))],
+                normal_requires=lambda c: z3.Or(lib.is_in(c.old, QG, c.args["get_event_to_cancel"].t),
+                                                lib.is_in(c.old, RG, c.args["get_event_to_cancel"].t)),
+                modifies=(ITEMS, QG, RG, RE), heap_modifies=("triggered",), result_kind=("bool",),
+                props=("C02", "C04", "C05", "C06", "C07"))
+
+        # ---- __init__
+        init_params = [("env", ("env",), None), ("capacity", ("num", "intinf"), Num(z3.IntVal(0), inf=z3.BoolVal(True)))]
+        if p["lifo"]:
+            init_params.append(("mode", ("str",), VStr("FIFO")))
+        if p["filt"]:
+            init_params.append(("trigger_delay", ("num", "real"), Num(0)))
+        C["__init__"] = FnContract(
+            "__init__", init_params,
+            excs=[ExcCase("ValueError", lambda c: z3.And(z3.Not(c.args["capacity"].inf), c.args["capacity"].t <= 0),
+                          "non-positive-capacity", unchanged=False, props=("C20",))],
+            normal_requires=lambda c: z3.Or(c.args["capacity"].inf, c.args["capacity"].t > 0),
+            post=lambda c: [Clause("capacity-recorded", lambda c: V.eq(c.new.f["capacity"], c.args["capacity"]), ("C01",))],
+            uses_inv=False, keeps_inv=True, is_init=True, props=("C01", "C20"))
         return C
 
     # ------------------------------------------------------------------ loop invariants
@@ -411,10 +600,12 @@ class StoreLib(LibBase):
 
     def bind_params(self, cls, fname, fnode, con, st):
         args = {}
+        from pyvc.execute import EnvRef
         for (nm, kind, default) in con.params:
-            args[nm] = V.mk_value("arg." + nm, kind)
-            if kind[0] == "obj" and kind[1] == "event":
-                st.assume(z3.And(args[nm].t >= 0, args[nm].t < st.next_id))
+            if kind[0] == "env":
+                args[nm] = EnvRef()
+            else:
+                args[nm] = V.mk_value("arg." + nm, kind)
         return args
 
     # ------------------------------------------------------------------ executor hooks
@@ -448,6 +639,29 @@ class StoreLib(LibBase):
                             continue
                         s.assume(cl)
         return outs
+
+    def call_super(self, ex, name, args, st, lineno):
+        """trusted K-contract of simpy.resources.store.Store.__init__(env, capacity)"""
+        if name != "__init__":
+            raise Unsupported("super().%s" % name)
+        cap = args[1]
+        outs, ok = ex.raise_if(st, z3.And(z3.Not(cap.inf) if cap.inf is not None else True, cap.t <= 0),
+                               "ValueError", lineno, "simpy Store: capacity must be > 0")
+        if ok is not None:
+            ok.f["capacity"] = cap
+            ok.f[ITEMS] = V.list_empty(self.schema(ex.ctx.cls)[ITEMS][1])
+            outs.append((NONE, ok))
+        return outs
+
+    def set_self_attr(self, ex, attr, v, st, lineno):
+        from pyvc.execute import EnvRef
+        if attr == "env" and isinstance(v, EnvRef):
+            return [Outcome("next", st)]
+        sch = self.schema(ex.ctx.cls)
+        if isinstance(v, SList) and v.ekind == ("any",) and attr in sch and sch[attr][0] == "list":
+            st.f[attr] = V.list_empty(sch[attr][1])
+            return [Outcome("next", st)]
+        return None
 
     def call_env(self, ex, name, args, kw, st, node):
         if name == "event":
